@@ -307,6 +307,21 @@ PROPS = {
         trusted=COMMON_TRUST,
         not_decided=["Lehmer matrix construction (matrix.rs)", "gcd_extended / inv_mod / lcm above 8 bits"],
     ),
+    "C19": dict(
+        level="other",
+        level_text="Kani proves bounded contracts of the three pure functions of the proc-macro crate, whose item texts are copied VERBATIM from /repo/ruint-macro/src/lib.rs into the harness crate on every run "
+                   "(vf/genmacro.py): parse_digits accepts exactly the digit strings of the base selected by the 0x/0o/0b prefix (underscores ignored) and returns the limbs of the Horner value incl. the carry-push path across 2^64; "
+                   "pad_limbs returns Some iff value < 2^bits with exactly ceil(bits/64) limbs of the same value (13 widths 0..192); parse_suffix splits value / U|B / bits exactly per the hex-B ambiguity rule",
+        level_note="BOUNDED (not a proof): strings <= 5 characters over a 16-character alphabet (parse_digits), <= 7 (parse_suffix), limb vectors <= 4; alloc::fmt::format and Vec::push are replaced by Kani stubs "
+                   "(the real ones exhaust CBMC), the native replay runs the real ones. NOT decided: the Transformer's token-tree traversal and code generation (proc_macro::TokenStream exists only inside rustc), "
+                   "literals of several hundred digits, widths up to 4096, error message text",
+        technique="Kani bounded contract harnesses on verbatim-extracted proc-macro functions (extraction drops everything that touches proc_macro::TokenStream)",
+        units=[],
+        kani=dict(features=None, quick=hs("c19"), thorough=hs("c19"), bounds="strings <= 5 / <= 7 chars, vectors <= 4 limbs, bits in {0,1,2,8,63,64,65,100,127,128,129,191,192}"),
+        explanation="harness-level contracts with Horner / u128 oracles",
+        trusted=COMMON_TRUST + ["stubs: alloc::fmt::format (error text only), Vec::push without reallocation (capacity 4)"],
+        not_decided=["token traversal / pass-through of non-matching tokens / nesting", "long literals and wide suffixes"],
+    ),
     "C20": dict(
         level="proof",
         level_text="Verus proves, for ALL widths at once, that the 30 operator impls generated by impl_bin_op! (Add/Sub/Mul/Div/Rem x {value, reference} operands and both compound-assignment forms) and 26 num-traits facade methods "
